@@ -700,14 +700,15 @@ example : (startsOf (run exConsts exEnv 20 (applyExts [.setFastPoll 0 true 2, .t
 example : ∃ t, startsOf (turn exConsts exEnv (prologue exConsts exEnv exState).σ).evs 1 = [t] :=
   due_polled_this_turn exConsts exEnv exEnv_quiet 3 1 exEnv_bounded _ 1 (exMod 25 60 [2]) (by decide) rfl (by decide)
 
-/-- the late path on the example thread: `initialReads` of module 0 ends with a communication error (call 0) and every
-later call with an arbitrary exception — the round is broken off at once, then `writeInitParams` of all three modules
-is called (the one that is only written included), and the loop polls as if nothing had happened -/
+/-- the late path on the example thread: `initialReads` of module 0 ends with a communication error (call 1) and every
+other call — the `writeInitParams` before it included — with an arbitrary exception: the round is broken off at once,
+then `writeInitParams` of all three modules is called (the one that is only written included), and the loop polls as
+if nothing had happened -/
 example :
-    (prologue exConsts (exEnv.setOut (fun k => if k = 0 then .comm else .exc)) exState).aborted = true ∧
-    (prologue exConsts (exEnv.setOut (fun k => if k = 0 then .comm else .exc)) exState).evs.map (fun e => (e.m, e.f)) =
-      [(0, .init), (0, .write), (1, .write), (2, .write)] ∧
-    (startsOf (thread exConsts (exEnv.setOut (fun k => if k = 0 then .comm else .exc)) 30 exState).evs 0).length ≥ 5 := by
+    (prologue exConsts (exEnv.setOut (fun k => if k = 1 then .comm else .exc)) exState).aborted = true ∧
+    (prologue exConsts (exEnv.setOut (fun k => if k = 1 then .comm else .exc)) exState).evs.map (fun e => (e.m, e.f)) =
+      [(0, .write), (0, .init), (0, .write), (1, .write), (2, .write)] ∧
+    (startsOf (thread exConsts (exEnv.setOut (fun k => if k = 1 then .comm else .exc)) 30 exState).evs 0).length ≥ 5 := by
   decide +kernel
 
 /-- `nopoll_never_read` on it, and the monitor agrees -/
